@@ -34,6 +34,9 @@ type Line struct {
 	Hosts   []proj.Text   `json:"hosts"`
 	Trivial bool          `json:"trivial"`
 	Exp     []proj.Text   `json:"exp"`
+	// canonicalizer lines: t = "u" (one grammar URL in In) and t = "cls" (spellings of one URL)
+	Sp  []proj.Text `json:"sp"`
+	Std bool        `json:"std"`
 }
 
 type Mismatch struct {
@@ -110,6 +113,7 @@ func cmdReplay(args []string) int {
 	spmodes := fs.String("spmodes", "late,early", "SearchParams handle modes for histories")
 	params := fs.Bool("params", true, "compare parameter lists")
 	logf := fs.String("log", "", "file receiving TLC's own output lines")
+	parserName := fs.String("parser", "default", "parser for histories (option list, see options.go)")
 	reparse := fs.Bool("reparse", false, "parse lines: also re-parse the observed serialization and demand identity (C03)")
 	fs.Parse(args)
 
@@ -147,6 +151,7 @@ func cmdReplay(args []string) int {
 		defer mw.Flush()
 	}
 	kset := keysFor(*keys)
+	histP = parserFor(*parserName)
 	start := time.Now()
 	S := Summary{Family: *family}
 	distinct := map[[20]byte]struct{}{}
@@ -308,6 +313,7 @@ func cmdReplay(args []string) int {
 }
 
 var defaultP = url.NewParser()
+var histP url.Parser = defaultP
 
 func runParse(entry string, ln *Line) (fail bool, got proj.Proj, errc string) {
 	defer func() {
@@ -413,7 +419,7 @@ func runHistory(family, mode string, ln *Line, kset map[string]bool, params bool
 	if nobj == 0 {
 		nobj = 3
 	}
-	m := interp.New(defaultP, nobj)
+	m := interp.New(histP, nobj)
 	m.Early = mode == "early"
 	m.Params = params
 	for i := range ln.Steps {
